@@ -2,6 +2,7 @@ package mon
 
 import (
 	"fmt"
+	"github.com/xjslang/xjs/token"
 
 	"github.com/xjslang/xjs/ast"
 	"github.com/xjslang/xjs/compiler"
@@ -79,6 +80,32 @@ func recycledBuilder(v int) *parser.Builder {
 // parseRecycled parses src in default mode with a parser built from a long-lived, reconfigured builder.
 func parseRecycled(src string, v int) ParseOut {
 	p := recycledBuilder(v).Build(src)
+	prog, err := p.ParseProgram()
+	return ParseOut{Prog: prog, Err: err, Errors: p.Errors(), P: p}
+}
+
+// parseObserved parses src in default mode on a builder that carries observing plugins: a pass-through token, statement
+// and expression interceptor, and an expression interceptor that lets the default path parse the expression and then
+// asks the parser to continue it (`e := next(); return p.ParseRemainingExpression(e)`: nothing is left to continue, so
+// the tree is the default tree). What the text means does not depend on who watches the parse.
+func parseObserved(src string, v int) ParseOut {
+	lb := lexer.NewBuilder()
+	lb.UseTokenInterceptor(func(l *lexer.Lexer, next func() token.Token) token.Token { return next() })
+	pb := parser.NewBuilder(lb)
+	pb.UseStatementInterceptor(func(p *parser.Parser, next func() ast.Statement) ast.Statement { return next() })
+	n := 0
+	pb.UseExpressionInterceptor(func(p *parser.Parser, next func() ast.Expression) ast.Expression {
+		n++
+		switch (n + v) % 3 {
+		case 0:
+			return next()
+		case 1:
+			e := next()
+			return p.ParseRemainingExpression(e)
+		}
+		return p.ParseRemainingExpression(p.ParsePrefixExpression())
+	})
+	p := pb.Build(src)
 	prog, err := p.ParseProgram()
 	return ParseOut{Prog: prog, Err: err, Errors: p.Errors(), P: p}
 }
